@@ -26,7 +26,7 @@
      [unrestricted_convergence_refuted]. *)
 From Coq Require Import List NArith Bool Sorting.Sorted.
 From FS Require Import Sx Model.Path Model.Stat Model.Tree Model.Walk Model.Diff Model.AbsDest Model.Converge Model.ConvergeA
-  Proofs.Lex Proofs.DiffP Proofs.ReceiveP Proofs.OracleP Proofs.ConvergeP Proofs.MergeP Proofs.WalkWfP Proofs.DirTimesP.
+  Proofs.Lex Proofs.DiffP Proofs.ReceiveP Proofs.OracleP Proofs.ConvergeP Proofs.MergeP Proofs.WalkWfP Proofs.DirTimesP Proofs.XattrViewP.
 Import ListNotations.
 Open Scope N_scope.
 
@@ -154,6 +154,15 @@ Theorem dir_mtimes_merge : forall (H : bytes -> bytes) (hdr : stat -> bytes) (no
   ts_err s = false /\ ts_map s = ds_map (receive_abs H hdr Merge d A B) /\ approx_merge A B (view_t s).
 Proof. exact dir_mtimes_merge_proof. Qed.
 
+(* The predicted observation that the glue compares the REAL destination snapshot with, field by
+   field ([view_x], Model/ConvergeA.v: AbsDest's map + directory mtimes + xattrs as the code
+   writes them — per inode, old keys of a directory kept under the new ones), is ≈ the source. *)
+Theorem predicted_view_converges : forall (H : bytes -> bytes) (hdr : stat -> bytes) (now : N -> N) d A B,
+  wf_entries A -> wf_entries B -> AbsDest.identity_faithful d A B ->
+  let s := receive_t now Fresh d A B in
+  ts_err s = false /\ approx A B (view_x A s).
+Proof. exact view_x_converges_proof. Qed.
+
 Print Assumptions diff_apply_converges.
 Print Assumptions merge_is_overlay.
 Print Assumptions converges_from_any_prior.
@@ -165,6 +174,7 @@ Print Assumptions walk_views_are_wf.
 Print Assumptions converges_on_walked_trees.
 Print Assumptions dir_mtimes_fresh.
 Print Assumptions dir_mtimes_merge.
+Print Assumptions predicted_view_converges.
 
 (* ------------------------------------------------------------------ examples *)
 Definition mk (p : bytes) (mode uid gid size mtime : N) (ln : bytes) (xa : list (bytes * bytes)) : stat :=
@@ -250,3 +260,16 @@ Example example_walk_wf :
   /\ map (fun e => (st_path (fst e), st_linkname (fst e))) (walk_entries (fun r => [l_ino r]) ex_tree)
      = [([97], []); ([97; 47; 120], []); ([98], [97; 47; 120])].
 Proof. vm_compute. split; reflexivity. Qed.
+
+(* xattrs per inode: the prior b carries user.old under the same identity key as the source's b
+   (no xattrs) and the source adds the link c -> b: both names show the old key — which the
+   relation does not claim, the inode was not created by this transfer (corpus/C01) *)
+Definition xo : list (bytes * bytes) := [([111], [1])].
+Definition stA : list AbsDest.entry := [ (mk pb 420 0 0 1 5 [] xo, [9]) ].
+Definition stB : list AbsDest.entry := [ (mk pb 420 0 0 1 5 [] [], [9]); (mk pc 420 0 0 1 5 pb [], [9]) ].
+Example example_stale_xattrs :
+  let s := receive_t clock Fresh DMetadata stA stB in
+  map (fun o => (o_path o, o_xattrs o)) (view_x stA s) = [(pc, xo); (pb, xo)]
+  /\ inode_created stA stB (mk pc 420 0 0 1 5 pb []) = false
+  /\ converged_o false stA stB (view_x stA s) = true.
+Proof. vm_compute. repeat split; reflexivity. Qed.
